@@ -482,12 +482,24 @@ def _check_use(ctx, m, guard, gname, gmode, gcalls, use_node, name_arg, text, mo
         same = norm(garg) == norm(name_arg) and isinstance(garg, ast.Name) and \
             not [1 for nm, v, s in assignments(m.node) if nm == garg.id and not isinstance(s, ast.For)]
         loop = None
+        collected = False
         if not same and isinstance(garg, ast.Name):
             # guard inside `for x in <names>` with the use taking <names>
             for p, field in enclosing(m.node, gnode):
                 if isinstance(p, ast.For) and field == 'body' and isinstance(p.target, ast.Name) \
                         and p.target.id == garg.id and norm(p.iter) == norm(name_arg):
                     loop = p
+                elif isinstance(p, ast.For) and field == 'body' and isinstance(p.target, ast.Name) \
+                        and p.target.id == garg.id and isinstance(name_arg, ast.Name) and name_arg.id not in m.params:
+                    # the use receives a local list that the checking loop fills with the names it has judged
+                    fills = [x for x in ast.walk(m.node) if isinstance(x, ast.Call) and isinstance(x.func, ast.Attribute)
+                             and x.func.attr == 'append' and dotted(x.func.value) == name_arg.id]
+                    inits = [v for v, st in defs_of(m.node, name_arg.id)]
+                    if fills and all(any(q is p for q, _ in enclosing(m.node, x)) and len(x.args) == 1 and
+                                     norm(x.args[0]) == garg.id and x.lineno > gnode.lineno for x in fills) and \
+                            len(inits) == 1 and isinstance(inits[0], ast.List) and not inits[0].elts:
+                        loop = p
+                        collected = True
         if not same and loop is None:
             continue
         # the guard's mode argument
@@ -506,6 +518,26 @@ def _check_use(ctx, m, guard, gname, gmode, gcalls, use_node, name_arg, text, mo
             inside = any(p is loop for p, _ in enclosing(m.node, use_node))
             after = must_precede(m, use_node, [loop]) and not inside
             ok = body_ok and after
+            # the names are iterated twice (checking loop, then the deleter): a one-shot iterable (generator, map, file
+            # object) is exhausted by the check and nothing is deleted — the argument must be materialised first
+            if collected:
+                ctx.ok('R-FLOW', 'D1', m, loop, construct + '::materialised',
+                       f'DataDir.{m.name}: the deleter receives the list of names collected by the checking loop itself')
+            elif isinstance(name_arg, ast.Name) and name_arg.id in m.params:
+                mats = [st for v, st in defs_of(m.node, name_arg.id)
+                        if isinstance(st, ast.Assign) and (
+                            (isinstance(v, ast.Call) and dotted(v.func) in ('list', 'tuple', 'sorted') and v.args and
+                             norm(v.args[0]) == name_arg.id) or
+                            (isinstance(v, (ast.ListComp,)) and len(v.generators) == 1 and norm(v.generators[0].iter) == name_arg.id) or
+                            (isinstance(v, (ast.List, ast.Tuple)) and len(v.elts) == 1 and isinstance(v.elts[0], ast.Starred)
+                             and norm(v.elts[0].value) == name_arg.id))]
+                mat_ok = bool(mats) and must_precede(m, loop, mats)
+                ctx.decide(mat_ok, 'R-FLOW', 'D1', m, loop, construct + '::materialised',
+                           f'DataDir.{m.name}: the names are materialised (list/tuple) before they are iterated twice '
+                           f'(checking loop, then {text.split("(")[0]})',
+                           detail=f'`{name_arg.id}` is iterated by the checking loop and then handed to the deleter as it is: '
+                                  f'a generator / map object is exhausted by the check, so the call returns without deleting '
+                                  f'anything (delete_files does not remove exactly the named files)')
             ctx.decide(ok and mode_ok, 'R-DOM', 'D1', m, use_node, construct, inst +
                        ' (checking loop over the same list completes first)',
                        detail=('the checking loop does not complete before the deleting call: names '
